@@ -32,7 +32,15 @@ func newInfo(queueSize, readTimeout int) *tds.Info {
 }
 
 func newKit(queueSize, readTimeout int) (*kit, error) {
+	return newKitWith(queueSize, readTimeout, nil)
+}
+
+// newKitWith lets the caller adjust the connection information first.
+func newKitWith(queueSize, readTimeout int, adjust func(*tds.Info)) (*kit, error) {
 	k := &kit{tr: xport.New(), info: newInfo(queueSize, readTimeout)}
+	if adjust != nil {
+		adjust(k.info)
+	}
 	k.ctx, k.cancel = context.WithCancel(context.Background())
 	conn, err := tds.NewConnTransport(k.ctx, k.info, k.tr)
 	if err != nil {
